@@ -128,6 +128,9 @@ def check_levinson_property(r, order, tag):
 
 
 def replay(rep):
+    if rep['replay'].get('protocol') == 'values_only':
+        from props import _purity
+        return _purity.replay_protocol(rep['replay'])
     from spectrum import LEVINSON
     r = rep['replay']
     if r.get('function') == 'LEVINSON':
@@ -439,3 +442,7 @@ def run(ctx):
         rep = {'function': 'scale_free', 'which': which, 'r': vlib.hexv(r), 'Z': vlib.hexv(Z), 'scale': float(sc).hex()}
         for key, what in check_scale_free(which, r, Z, sc):
             ctx.violation(key, what, rep)
+
+    # ---------------- results depend on the VALUES given only: call protocol (repeat, aliasing, buffer reuse, memory layout, integer / single-precision dtypes)
+    from props import _purity
+    _purity.run_protocol(ctx, ['LEVINSON', 'HERMTOEP', 'TOEPLITZ'])
